@@ -4,6 +4,7 @@ import (
 	"crypto/x509"
 	"fmt"
 	"math/big"
+	"net/http"
 	"os"
 	"path/filepath"
 	"sort"
@@ -32,14 +33,17 @@ type Case struct {
 	Level   string `json:"level"`   // repo | checker
 	Fault   string `json:"fault"`   // closed | corrupt-value | corrupt-table | swap-failure | race-close | swap-sabotage
 	// Site (swap-sabotage): the step of the real LevelDB swap at which every crl_*_tmp directory below work_dir vanishes
-	Site    string   `json:"site,omitempty"`
-	N       int      `json:"n"` // listed entries
-	Damage  string   `json:"damage,omitempty"`
-	KeyIdx  int      `json:"key_idx,omitempty"`
-	Bytes   []byte   `json:"bytes,omitempty"`
-	Offset  int      `json:"offset,omitempty"`
-	Strict  bool     `json:"strict,omitempty"`
-	Extra   int      `json:"extra,omitempty"` // additional healthy CRLs (other issuers) in the same repository
+	Site   string `json:"site,omitempty"`
+	N      int    `json:"n"` // listed entries
+	Damage string `json:"damage,omitempty"`
+	KeyIdx int    `json:"key_idx,omitempty"`
+	Bytes  []byte `json:"bytes,omitempty"`
+	Offset int    `json:"offset,omitempty"`
+	Strict bool   `json:"strict,omitempty"`
+	Extra  int    `json:"extra,omitempty"` // additional healthy CRLs (other issuers) in the same repository
+	// ViaCDP: the list is not a configured file but the one named in the probed certificates' own distribution point
+	// (fetched over HTTP); the probes carry that distribution point
+	ViaCDP  bool     `json:"via_cdp,omitempty"`
 	Serials []string `json:"serials"`
 }
 
@@ -50,6 +54,7 @@ func genCase(t *rapid.T) Case {
 		Backend: rapid.SampledFrom([]string{"disk", "disk", "memory"}).Draw(t, "backend"),
 		Level:   rapid.SampledFrom([]string{"repo", "checker"}).Draw(t, "level"),
 		Strict:  rapid.Bool().Draw(t, "strict"),
+		ViaCDP:  rapid.IntRange(0, 2).Draw(t, "viacdp") == 0,
 	}
 	faults := []string{"closed", "corrupt-value", "corrupt-value", "race-close", "swap-failure"}
 	if c.Backend == "disk" {
@@ -132,6 +137,15 @@ func runCase(c Case, x *ev.Ctx) error {
 	var repo *crlrepository.Repository
 	var checker *crl.CRLRevocationChecker
 	loc := &core.CRLLocations{CRLFile: crlFile}
+	var cdp []string
+	if c.ViaCDP {
+		o := world.NewOrigin()
+		defer o.Close()
+		o.Set("/list.crl", func(w http.ResponseWriter, r *http.Request, _ []byte, _ int) { http.ServeFile(w, r, crlFile) })
+		cdp = []string{o.URL("/list.crl")}
+		loc = &core.CRLLocations{CRLDistributionPoints: cdp}
+		x.Class("list-from-the-certificates-own-cdp")
+	}
 	chains := core.NewCertificateChains(nil, []*x509.Certificate{pki.Root.Cert})
 	if c.Level == "repo" {
 		st := crlstore.Map
@@ -194,7 +208,11 @@ func runCase(c Case, x *ev.Ctx) error {
 			return world.Ask(checker, pki.ChainFor(&gen.Cert{Cert: cert}))
 		}
 		v, err := world.Call("Repository.IsRevoked", world.DefaultWatchdog, func() world.Verdict {
-			st, err := repo.IsRevoked(cert, nil)
+			var locs *core.CRLLocations
+			if len(cert.CRLDistributionPoints) > 0 {
+				locs = &core.CRLLocations{CRLDistributionPoints: cert.CRLDistributionPoints}
+			}
+			st, err := repo.IsRevoked(cert, locs)
 			if err != nil {
 				return world.Verdict{Kind: "error", Err: err.Error()}
 			}
@@ -212,14 +230,14 @@ func runCase(c Case, x *ev.Ctx) error {
 	var listed []*x509.Certificate
 	for i, s := range c.Serials {
 		if i < 6 || c.Fault == "corrupt-table" && i%17 == 0 {
-			listed = append(listed, pki.Leaf(s, nil, nil).Cert)
+			listed = append(listed, pki.Leaf(s, cdp, nil).Cert)
 		}
 	}
 	unl := new(big.Int).Add(gen.SerialFromHex(c.Serials[0]), big.NewInt(1))
 	for contains(c.Serials, unl.Text(16)) {
 		unl.Add(unl, big.NewInt(1))
 	}
-	unlisted := pki.Leaf(evenHex(unl.Text(16)), nil, nil).Cert
+	unlisted := pki.Leaf(evenHex(unl.Text(16)), cdp, nil).Cert
 
 	// healthy baseline: the harness itself must not be the cause of errors
 	for _, l := range listed {
@@ -501,7 +519,7 @@ var spec = ev.Spec[Case]{
 	ID:   "C09",
 	Gen:  genCase,
 	Run:  runCase,
-	Rule: "rapid draws (backend, level in {repository, checker}, strictness, fault, list of 1..12 serials of 1..20 bytes; 50..400 for table corruption). A healthy CRL is loaded through the real path (faults also include, rarely and on disk only, a sabotaged REAL store swap: at a drawn step of LevelDbStore.Update every crl_*_tmp directory below work_dir vanishes) (file loader -> streaming reader -> staged store -> swap); baseline lookups must be truthful. Then one fault is injected: store/repository/checker closed; one record value (k-th key of the live store, through the exported Db/Map) emptied / truncated / replaced by random bytes / bit-flipped; bytes of a compacted LevelDB table file flipped followed by a restart; the final store swap of a refresh failing (wrapping factory); 4 reader goroutines racing Close. Oracle: a lookup of a LISTED serial answers revoked or error, never (not revoked, nil); an unlisted serial is never reported revoked; on disk after Close every lookup is an error. Non-trivial: every case that reached the fault (baseline truthful); distinct by (fault, backend, level, damage kind, strict, size bucket).",
+	Rule: "rapid draws (backend, level in {repository, checker}, strictness, fault, list of 1..12 serials of 1..20 bytes; 50..400 for table corruption). A healthy CRL is loaded through the real path (faults also include, rarely and on disk only, a sabotaged REAL store swap: at a drawn step of LevelDbStore.Update every crl_*_tmp directory below work_dir vanishes) (file loader -> streaming reader -> staged store -> swap); baseline lookups must be truthful. Then one fault is injected: store/repository/checker closed; one record value (k-th key of the live store, through the exported Db/Map) emptied / truncated / replaced by random bytes / bit-flipped; bytes of a compacted LevelDB table file flipped followed by a restart; the final store swap of a refresh failing (wrapping factory); 4 reader goroutines racing Close. Oracle: a lookup of a LISTED serial answers revoked or error, never (not revoked, nil); an unlisted serial is never reported revoked; on disk after Close every lookup is an error. Non-trivial: every case that reached the fault (baseline truthful); distinct by (fault, backend, level, damage kind, strict, size bucket). The list is a configured crl_file or (a third of the cases) the list named in the probed certificates' own distribution point; strictness is drawn, so the lenient CDP mode is covered: a loaded list whose store fails is a storage failure, not an unobtainable list.",
 	Assumptions: []string{
 		"damage that makes leveldb silently drop a journal record cannot be observed by the plugin and is out of scope; table corruption is judged by the same never-(ok,nil)-for-listed rule",
 	},
